@@ -4,6 +4,7 @@ import H264.SliceConverse
 import H264.History
 import H264.Tables2C06
 import H264.TblProofC06
+import H264.SmallProofC16Slice
 /-! # C06 — Slice header parsing follows H.264 7.3.3 and stops exactly at slice data
 
 Model: `Slice.parseSliceHeader ctx hdr` mirrors `SliceHeader::from_bits(ctx, reader, nal_header)`.
@@ -77,5 +78,11 @@ theorem code_slice_type_table : Generated.sliceType.length = 64 ∧
 on the 64 swept slice headers, by proof on every run -/
 theorem model_parser_reproduces_code_on_slice_type_sweep :
     ∀ t : Fin 64, TblProof.sliceTypeCode t.val = Generated.sliceType.getD t.val (9, 9, 9) := TblProof.sliceType_model_eq_code
+
+/-- **model = real code across every range check of a slice header, by proof**: ten coded fields of an SP slice header (against a
+PPS with CABAC, redundant_pic_cnt and deblocking control switched on), one at a time swept across its bounds, everything else
+valid (820 inputs): the model parser accepts exactly what the real parser accepted in this run's graph and returns the same field -/
+theorem model_slice_bounds_reproduce_code : (List.range 820).map SmallProof.sliceFieldRow = Generated.sliceFieldRows :=
+  SmallProof.sliceFields_model_eq_code
 
 end C06
